@@ -33,15 +33,51 @@ impl MmapMut {
         panic!()
     }
 
-    fn copy_from_slice(&self, _: &[u8]) {
+    fn len(&self) -> usize {
         panic!()
     }
+}
+
+/// Copies `buf` into the mapping at `*pos` and advances `*pos`. Writing past
+/// the end of the mapping (more data than the declared size) is an error.
+#[cfg(feature = "mmap")]
+fn write_mmap(mmap: &mut MmapMut, pos: &mut usize, buf: &[u8]) -> std::io::Result<usize> {
+    match pos.checked_add(buf.len()) {
+        Some(end) if end <= mmap.len() => {
+            mmap[*pos..end].copy_from_slice(buf);
+            *pos = end;
+            Ok(buf.len())
+        }
+        _ => Err(std::io::Error::new(
+            std::io::ErrorKind::InvalidInput,
+            "more data was written than the declared size",
+        )),
+    }
+}
+
+#[cfg(not(feature = "mmap"))]
+fn write_mmap(_: &mut MmapMut, _: &mut usize, _: &[u8]) -> std::io::Result<usize> {
+    panic!()
+}
+
+/// If less data than the declared size was written through the mapping, cuts
+/// the pre-allocated temp file down to what was actually written.
+fn trim_mmap(mmap: Option<MmapMut>, pos: usize, tmpfile: &NamedTempFile) -> std::io::Result<()> {
+    if let Some(mmap) = mmap {
+        let mapped = mmap.len();
+        drop(mmap);
+        if pos < mapped {
+            tmpfile.as_file().set_len(pos as u64)?;
+        }
+    }
+    Ok(())
 }
 
 pub struct Writer {
     cache: PathBuf,
     builder: IntegrityOpts,
     mmap: Option<MmapMut>,
+    mmap_pos: usize,
     tmpfile: NamedTempFile,
 }
 
@@ -72,12 +108,15 @@ impl Writer {
             builder: IntegrityOpts::new().algorithm(algo),
             tmpfile,
             mmap,
+            mmap_pos: 0,
         })
     }
 
     pub fn close(self) -> Result<Integrity> {
         let sri = self.builder.result();
         let cpath = path::content_path(&self.cache, &sri);
+        trim_mmap(self.mmap, self.mmap_pos, &self.tmpfile)
+            .with_context(|| "Failed to trim temp file to the written length".to_string())?;
         DirBuilder::new()
             .recursive(true)
             // Safe unwrap. cpath always has multiple segments
@@ -114,11 +153,12 @@ impl Writer {
 
 impl Write for Writer {
     fn write(&mut self, buf: &[u8]) -> std::io::Result<usize> {
-        self.builder.input(buf);
         if let Some(mmap) = &mut self.mmap {
-            mmap.copy_from_slice(buf);
-            Ok(buf.len())
+            let written = write_mmap(mmap, &mut self.mmap_pos, buf)?;
+            self.builder.input(buf);
+            Ok(written)
         } else {
+            self.builder.input(buf);
             self.tmpfile.write(buf)
         }
     }
@@ -143,6 +183,7 @@ struct Inner {
     builder: IntegrityOpts,
     tmpfile: NamedTempFile,
     mmap: Option<MmapMut>,
+    mmap_pos: usize,
     buf: Vec<u8>,
     last_op: Option<Operation>,
 }
@@ -177,6 +218,7 @@ impl AsyncWriter {
             cache: cache_path,
             builder: IntegrityOpts::new().algorithm(algo),
             mmap,
+            mmap_pos: 0,
             tmpfile,
             buf: vec![],
             last_op: None,
@@ -197,11 +239,21 @@ impl AsyncWriter {
                         Some(inner) => {
                             let (s, r) = futures::channel::oneshot::channel();
                             let tmpfile = inner.tmpfile;
+                            let mmap = inner.mmap;
+                            let mmap_pos = inner.mmap_pos;
                             let sri = inner.builder.result();
                             let cpath = path::content_path(&inner.cache, &sri);
 
                             // Start the operation asynchronously.
-                            *state = State::Busy(crate::async_lib::spawn_blocking(|| {
+                            *state = State::Busy(crate::async_lib::spawn_blocking(move || {
+                                let res = trim_mmap(mmap, mmap_pos, &tmpfile)
+                                    .with_context(|| {
+                                        "Failed to trim temp file to the written length".to_string()
+                                    });
+                                if res.is_err() {
+                                    let _ = s.send(res.map(|_| sri));
+                                    return State::Idle(None);
+                                }
                                 let res = std::fs::DirBuilder::new()
                                     .recursive(true)
                                     // Safe unwrap. cpath always has multiple segments
@@ -306,12 +358,15 @@ impl AsyncWrite for AsyncWriter {
 
                         // Start the operation asynchronously.
                         *state = State::Busy(crate::async_lib::spawn_blocking(|| {
-                            inner.builder.input(&inner.buf);
                             if let Some(mmap) = &mut inner.mmap {
-                                mmap.copy_from_slice(&inner.buf);
-                                inner.last_op = Some(Operation::Write(Ok(inner.buf.len())));
+                                let res = write_mmap(mmap, &mut inner.mmap_pos, &inner.buf);
+                                if res.is_ok() {
+                                    inner.builder.input(&inner.buf);
+                                }
+                                inner.last_op = Some(Operation::Write(res));
                                 State::Idle(Some(inner))
                             } else {
+                                inner.builder.input(&inner.buf);
                                 let res = inner.tmpfile.write(&inner.buf);
                                 inner.last_op = Some(Operation::Write(res));
                                 State::Idle(Some(inner))
